@@ -22,9 +22,25 @@ type boxVal struct {
 
 func init() { cache.GobRegister(sliceVal{}, mapVal{}, boxVal{}) }
 
+// nilID marks the token that stands for a nil interface value written to an untyped backend.
+const nilID = "nil"
+
+// nilTok maps a nil value read back from a backend to its token.
+func nilTok(key string, v interface{}) interface{} {
+	if v == nil {
+		return Tok{K: key, ID: nilID}
+	}
+
+	return v
+}
+
 var valReps = []string{"", "slice", "map", "box", "ptr"}
 
 func wrapVal(rep string, t Tok) interface{} {
+	if t.ID == nilID {
+		return nil // the "nil was written under this key" token of the backend engine
+	}
+
 	switch rep {
 	case "slice":
 		return sliceVal{t}
